@@ -722,9 +722,49 @@ def gen_lmeasure(rng, tier, shard, nshards, boost):
         yield l_input(ref, gen_labels(rng, ref, small), est, gen_labels(rng, est, small), fs, beta)
 
 
-CHECKERS = {"hierarchy.tmeasure": check_tmeasure, "hierarchy.lmeasure": check_lmeasure,
+def check_evaluate(inp):
+    """the bundle: every entry of hierarchy.evaluate(window, frame_size, beta) equals the triplet definition with THOSE
+    parameters (same-span annotations starting at 0, so that alignment changes nothing)"""
+    if not _valid_pair(inp["ref"], inp["est"]):
+        return None
+    fs, window = Fr(inp["frame_size"]), (None if inp["window"] is None else Fr(inp["window"]))
+    if fs <= 0 or (window is not None and fs > window):
+        return None
+    try:
+        got = H.evaluate(arrs(inp["ref"]), [list(x) for x in inp["ref_labels"]],
+                         arrs(inp["est"]), [list(x) for x in inp["est_labels"]],
+                         window=inp["window"], frame_size=inp["frame_size"], beta=inp["beta"])
+    except Exception as e:  # noqa: BLE001
+        return "evaluate raised %s(%s) on a valid input" % (type(e).__name__, e)
+    ref, est = _frac_hier(inp["ref"]), _frac_hier(inp["est"])
+    R, E = depth_matrix(ref, fs), depth_matrix(est, fs)
+    w = None if window is None else math.floor(window / fs)
+    beta = Fr(inp["beta"])
+    for mode, tr in (("reduced", False), ("full", True)):
+        t = tuple(got[k % mode] for k in ("T-Precision %s", "T-Recall %s", "T-Measure %s"))
+        what = _check_scores("evaluate[T-* %s]" % mode, t, triplet_score(E, R, tr, w), triplet_score(R, E, tr, w), beta)
+        if what:
+            return what
+    RL, EL = depth_matrix(ref, fs, inp["ref_labels"]), depth_matrix(est, fs, inp["est_labels"])
+    l = (got["L-Precision"], got["L-Recall"], got["L-Measure"])
+    return _check_scores("evaluate[L-*]", l, triplet_score(EL, RL, True, None), triplet_score(RL, EL, True, None), beta)
+
+
+def gen_evaluate(rng, tier, shard, nshards, boost):
+    n = (40 if tier == "quick" else 300) * boost
+    for _ in range(n):
+        fs, window, tr, beta, ref, est = _oracle_hier_pair(rng)
+        small = rng.choice([None, 2, 3])
+        d = l_input(ref, gen_labels(rng, ref, small), est, gen_labels(rng, est, small), fs, beta)
+        d["window"] = fl(window)
+        yield d
+
+
+CHECKERS = {"hierarchy.evaluate": check_evaluate,
+            "hierarchy.tmeasure": check_tmeasure, "hierarchy.lmeasure": check_lmeasure,
             "hierarchy.tmeasure/params": check_t_params, "hierarchy.lmeasure/params": check_l_params}
-ORACLES = {"hierarchy.tmeasure": gen_tmeasure, "hierarchy.lmeasure": gen_lmeasure,
+ORACLES = {"hierarchy.evaluate": gen_evaluate,
+           "hierarchy.tmeasure": gen_tmeasure, "hierarchy.lmeasure": gen_lmeasure,
            "hierarchy.tmeasure/params": gen_t_params, "hierarchy.lmeasure/params": gen_l_params}
 
 
